@@ -12,33 +12,34 @@ import LzmaProofs.Lemmas.XzInv
 namespace Lzma.C06
 open Lzma
 
-/-- **C06, main theorem.**  For every byte string `x` and every perfect sink `s`: if
+/-- **C06, main theorem.**  For every byte string `x` and every sink `s` (perfect or
+faulty: any script of short writes / failures): if
 `xz_decompress` succeeds then `x` is a valid single-stream `.xz` file — header, blocks, index,
 footer, nothing after the footer — with every integrity field correct (`XzFile.Valid`), the reader
 is at end of input, and the sink received exactly the concatenation of the blocks' contents. -/
-theorem xz_success_implies_checks (x : Bytes) (s s' : Sink) (rd' : Rd) (hs : s.script = [])
+theorem xz_success_implies_checks (x : Bytes) (s s' : Sink) (rd' : Rd)
     (h : xzDecompress (Rd.ofBytes x) s = (s', .ok rd')) :
     ∃ (check : CheckMethod) (blocks : List XzBlock),
       XzParses x check blocks ∧ rd'.rem = [] ∧
       s'.out = s.out ++ (blocks.flatMap (·.out)).toArray := by
-  obtain ⟨f, hv, hx, hr, -, ho, -⟩ := xzDecompress_ok hs h
+  obtain ⟨f, hv, hx, hr, -, ho⟩ := xzDecompress_ok h
   exact ⟨f.check, f.blocks, ⟨f, rfl, rfl, hv, hx⟩, hr, ho⟩
 
 /-- the same with the file structure exposed -/
-theorem xz_success_file (x : Bytes) (s s' : Sink) (rd' : Rd) (hs : s.script = [])
+theorem xz_success_file (x : Bytes) (s s' : Sink) (rd' : Rd)
     (h : xzDecompress (Rd.ofBytes x) s = (s', .ok rd')) :
     ∃ f : XzFile, f.Valid ∧ x = f.bytes ∧ rd'.rem = [] ∧ s'.out = s.out ++ f.out.toArray := by
-  obtain ⟨f, hv, hx, hr, -, ho, -⟩ := xzDecompress_ok hs h
+  obtain ⟨f, hv, hx, hr, -, ho⟩ := xzDecompress_ok h
   exact ⟨f, hv, hx, hr, ho⟩
 
 /-! ### The layers of `XzFile.Valid`, spelled out -/
 
 /-- Layer 1 (stream header): magic, first flag byte 0, supported check id, CRC32 of the flags. -/
-theorem xz_success_header (x : Bytes) (s s' : Sink) (rd' : Rd) (hs : s.script = [])
+theorem xz_success_header (x : Bytes) (s s' : Sink) (rd' : Rd)
     (h : xzDecompress (Rd.ofBytes x) s = (s', .ok rd')) :
     ∃ (id : UInt8) (rest : Bytes), (id = 0x00 ∨ id = 0x01 ∨ id = 0x04) ∧
       x = XZ_MAGIC ++ [0, id] ++ leBytes 4 (crc32 [0, id]) ++ rest := by
-  obtain ⟨f, hv, hx, -⟩ := xz_success_file x s s' rd' hs h
+  obtain ⟨f, hv, hx, -⟩ := xz_success_file x s s' rd' h
   refine ⟨UInt8.ofNat f.check.id, f.blocks.flatMap (·.bytes) ++ f.index.bytes ++ f.footer, ?_, ?_⟩
   · rcases hv.check_supported with h | h | h <;> rw [h] <;> simp [CheckMethod.id]
   · rw [hx]; simp [XzFile.bytes, XzFile.header, XzFile.flags]
@@ -47,7 +48,7 @@ theorem xz_success_header (x : Bytes) (s s' : Sink) (rd' : Rd) (hs : s.script = 
 `crc32(backward_size ++ flags) ++ backward_size ++ flags ++ "YZ"`, the flags equal the header's,
 `(backward_size + 1) * 4` is the real size of the index (over ℕ, no wrap-around), and the
 decoder stopped at the very end of the input. -/
-theorem xz_success_footer (x : Bytes) (s s' : Sink) (rd' : Rd) (hs : s.script = [])
+theorem xz_success_footer (x : Bytes) (s s' : Sink) (rd' : Rd)
     (h : xzDecompress (Rd.ofBytes x) s = (s', .ok rd')) :
     ∃ (f : XzFile) (pre : Bytes), x = f.bytes ∧
       x = pre ++ f.index.bytes ++
@@ -57,14 +58,14 @@ theorem xz_success_footer (x : Bytes) (s s' : Sink) (rd' : Rd) (hs : s.script = 
       f.backwardSize.length = 4 ∧
       (leVal f.backwardSize + 1) * 4 = f.index.bytes.length ∧
       rd'.rem = [] := by
-  obtain ⟨f, hv, hx, hr, -⟩ := xz_success_file x s s' rd' hs h
+  obtain ⟨f, hv, hx, hr, -⟩ := xz_success_file x s s' rd' h
   refine ⟨f, f.header ++ f.blocks.flatMap (·.bytes), hx, ?_, ?_, hv.bs_len, hv.backward, hr⟩
   · rw [hx]; simp [XzFile.bytes, XzFile.footer, XzFile.flags, XZ_MAGIC_FOOTER]
   · rw [hx]; simp [XzFile.bytes, XzFile.header, XzFile.flags, XZ_MAGIC]
 
 /-- Layer 3 (index): indicator 0, record count = number of blocks, one record per block with the
 block's real unpadded and uncompressed sizes, zero padding to a multiple of four, CRC32. -/
-theorem xz_success_index (x : Bytes) (s s' : Sink) (rd' : Rd) (hs : s.script = [])
+theorem xz_success_index (x : Bytes) (s s' : Sink) (rd' : Rd)
     (h : xzDecompress (Rd.ofBytes x) s = (s', .ok rd')) :
     ∃ f : XzFile, x = f.bytes ∧
       f.index.bytes = 0 :: (f.index.countEnc ++ f.index.records ++ f.index.pad ++ f.index.crc) ∧
@@ -76,7 +77,7 @@ theorem xz_success_index (x : Bytes) (s s' : Sink) (rd' : Rd) (hs : s.script = [
         (paddingSize (1 + f.index.countEnc.length + f.index.records.length)) 0 ∧
       f.index.crc =
         leBytes 4 (crc32 (0 :: (f.index.countEnc ++ f.index.records ++ f.index.pad))) := by
-  obtain ⟨f, hv, hx, -⟩ := xz_success_file x s s' rd' hs h
+  obtain ⟨f, hv, hx, -⟩ := xz_success_file x s s' rd' h
   have hi := hv.index_valid
   exact ⟨f, hx, rfl, by simpa using hi.count, hi.records, hi.pad_eq, hi.crc_eq⟩
 
@@ -84,16 +85,16 @@ theorem xz_success_index (x : Bytes) (s s' : Sink) (rd' : Rd) (hs : s.script = [
 (`XzBlock.Valid`: header size, header CRC32, reserved bits, filter list, declared sizes, zero
 header padding, the payload decodes to `out` consuming exactly the payload, zero block padding,
 check field = CRC32 / CRC64 of `out`). -/
-theorem xz_success_blocks (x : Bytes) (s s' : Sink) (rd' : Rd) (hs : s.script = [])
+theorem xz_success_blocks (x : Bytes) (s s' : Sink) (rd' : Rd)
     (h : xzDecompress (Rd.ofBytes x) s = (s', .ok rd')) :
     ∃ f : XzFile, x = f.bytes ∧ s'.out = s.out ++ (f.blocks.flatMap (·.out)).toArray ∧
       BlocksValid f.check f.blocks (f.index.bytes ++ f.footer) ∧
       ∀ b ∈ f.blocks, ∃ rest, b.Valid f.check rest := by
-  obtain ⟨f, hv, hx, -, ho⟩ := xz_success_file x s s' rd' hs h
+  obtain ⟨f, hv, hx, -, ho⟩ := xz_success_file x s s' rd' h
   exact ⟨f, hx, ho, hv.blocks_valid, BlocksValid.of_mem hv.blocks_valid⟩
 
 /-- In particular: the decoded content of every block has the CRC stored in the file. -/
-theorem xz_success_block_check (x : Bytes) (s s' : Sink) (rd' : Rd) (hs : s.script = [])
+theorem xz_success_block_check (x : Bytes) (s s' : Sink) (rd' : Rd)
     (h : xzDecompress (Rd.ofBytes x) s = (s', .ok rd')) :
     ∃ f : XzFile, x = f.bytes ∧ s'.out = s.out ++ (f.blocks.flatMap (·.out)).toArray ∧
       ∀ b ∈ f.blocks,
@@ -103,7 +104,7 @@ theorem xz_success_block_check (x : Bytes) (s s' : Sink) (rd' : Rd) (hs : s.scri
           | .crc32 => leBytes 4 (crc32 b.out)
           | .crc64 => leBytes 8 (crc64 b.out)
           | .sha256 => []) := by
-  obtain ⟨f, hx, ho, -, hb⟩ := xz_success_blocks x s s' rd' hs h
+  obtain ⟨f, hx, ho, -, hb⟩ := xz_success_blocks x s s' rd' h
   refine ⟨f, hx, ho, fun b hbm => ?_⟩
   obtain ⟨rest, hv⟩ := hb b hbm
   refine ⟨hv.hdr_crc, ?_⟩
@@ -144,6 +145,12 @@ example : ∃ s' rd', xzDecompress (Rd.ofBytes helloXz) {} = (s', .ok rd') ∧
     s'.out.toList = [0x68, 0x65, 0x6c, 0x6c, 0x6f] :=
   okWith_elim (by decide +kernel)
 
+/-- … the same through a sink that accepts two bytes, then one byte, then everything … -/
+example : ∃ s' rd', xzDecompress (Rd.ofBytes helloXz)
+      { script := [.upto 2, .upto 1, .all] } = (s', .ok rd') ∧
+    s'.out.toList = [0x68, 0x65, 0x6c, 0x6c, 0x6f] :=
+  okWith_elim (by decide +kernel)
+
 /-- … and the empty file -/
 example : ∃ s' rd', xzDecompress (Rd.ofBytes emptyXz) {} = (s', .ok rd') ∧ s'.out.toList = [] :=
   okWith_elim (by decide +kernel)
@@ -152,7 +159,7 @@ example : ∃ s' rd', xzDecompress (Rd.ofBytes emptyXz) {} = (s', .ok rd') ∧ s
 example : ∃ f : XzFile, f.Valid ∧ helloXz = f.bytes ∧ f.out = [0x68, 0x65, 0x6c, 0x6c, 0x6f] := by
   obtain ⟨s', rd', h, ho⟩ := okWith_elim (out := [0x68, 0x65, 0x6c, 0x6c, 0x6f])
     (r := xzDecompress (Rd.ofBytes helloXz) {}) (by decide +kernel)
-  obtain ⟨f, hv, hx, -, hout⟩ := xz_success_file helloXz {} s' rd' rfl h
+  obtain ⟨f, hv, hx, -, hout⟩ := xz_success_file helloXz {} s' rd' h
   refine ⟨f, hv, hx, ?_⟩
   rw [hout] at ho
   simpa using ho
